@@ -30,9 +30,9 @@
   filter objects and observer objects stay registered; table capacities are kept; and — small
   observations about the Go code, reachable — cache and observer IDs are never recycled and
   their pools are only reset when something is registered at the time of `Reset`
-  (`reset_keeps_cache_id_pool`, `reset_keeps_observer_id_pool`); an observer whose `Register`
-  panicked after taking its ID keeps that ID through `Reset`
-  (`reset_keeps_id_of_failed_register`: `ObsReg` is not an invariant across that recovered panic).
+  (`reset_keeps_cache_id_pool`, `reset_keeps_observer_id_pool`).  An observer whose `Register`
+  panicked used to keep an ID through `Reset` (defect D20, found while proving `ObsReg`; repaired:
+  `failed_register_keeps_no_id`).
 -/
 import Ark.Proofs.ResetInv
 import Ark.Model.Ops
@@ -326,8 +326,8 @@ theorem reset_keeps_observer_id_pool :
     ((obsIdScript (World.init 2 2)).state.obs.pool.get).2 = 2 ∧
     ((World.init 2 2).obs.pool.get).2 = 0 := by decide +kernel
 
-/-- a relation observer on a non-relation component: `Register` panics — after the ID was
-    taken —, the panic is recovered, then `Reset` -/
+/-- a relation observer on a non-relation component: `Register` panics, the panic is recovered,
+    then `Reset` -/
 private def badObsScript : W Bool := do
   let _ ← registerComponent {}
   M.modify fun w => { w with
@@ -336,20 +336,21 @@ private def badObsScript : W Bool := do
   opReset
   pure (match r with | .error .obsNonRelation => true | _ => false)
 
-/-- **Finding (reachable through panic + recover).**  `observerManager.AddObserver` assigns
-    `o.id = m.pool.Get()` BEFORE it validates the components of a relation observer.  If that
-    validation panics ("non-relation component in relation observer") and the panic is
-    recovered, the observer object keeps an ID although it is listed nowhere: `ObsReg` fails, and
-    `World.Reset` does not clear the ID — the conclusion "every observer object is unregistered
-    after `Reset`" is false in that state.  The object can neither be registered ("already
-    registered") nor unregistered ("not registered") afterwards. -/
-theorem reset_keeps_id_of_failed_register :
+/-- **Repaired defect D20.**  `observerManager.AddObserver` used to assign `o.id = m.pool.Get()`
+    BEFORE validating the components of a relation observer; a recovered "non-relation component in
+    relation observer" panic then left the observer with an ID although it was listed nowhere:
+    it could neither be registered ("already registered") nor unregistered again, not even after
+    `Reset` — and the reset world differed from a new one.  The ID is now taken after the checks:
+    a rejected registration leaves the object unregistered, no ID is consumed, and registering it
+    again is rejected for the same reason as on a new world. -/
+theorem failed_register_keeps_no_id :
     isOk (badObsScript (World.init 2 2)) = true ∧
     value false (badObsScript (World.init 2 2)) = true ∧
-    ((badObsScript (World.init 2 2)).state.obs.obj 12).oid = some 0 ∧
+    ((badObsScript (World.init 2 2)).state.obs.obj 12).oid = none ∧
     (badObsScript (World.init 2 2)).state.obs.totalCount = 0 ∧
-    isOk (opObsRegister 12 (badObsScript (World.init 2 2)).state) = false ∧
-    isOk (opObsUnregister 12 (badObsScript (World.init 2 2)).state) = false := by
+    ((badObsScript (World.init 2 2)).state.obs.pool.get).2 = 0 ∧
+    (match opObsRegister 12 (badObsScript (World.init 2 2)).state with
+      | .panic .obsNonRelation _ => true | _ => false) = true := by
   decide +kernel
 
 end Demo
